@@ -186,7 +186,9 @@ def run_proof(pr, units, work):
         cmd3 += ['--sat-solver', 'cadical'] if pr.backend == 'cadical' else ['--external-sat-solver', 'kissat']
     if pr.kind == 'B' and pr.backend == 'sat':
         cmd3 += ['--trace']      # cadical + --trace ends in VERIFICATION ERROR in cbmc 6.11: bounded proofs on cadical give no input trace
-    rc, out, secs = sh(cmd3, timeout=pr.timeout, mem_gb=pr.mem_gb)
+    # the per-proof timeouts in the specs are 3-5x the time measured on an idle 16-core machine; a loaded or slower machine gets
+    # VERIF_TIMEOUT_FACTOR (default 4) times that before a run is given up as undecided
+    rc, out, secs = sh(cmd3, timeout=int(pr.timeout * float(os.environ.get('VERIF_TIMEOUT_FACTOR', '4'))), mem_gb=pr.mem_gb)
     r.cmds.append(' '.join(cmd3))
     logs.append('$ ' + ' '.join(cmd3) + '\n' + out)
     r.log = '\n'.join(logs)
